@@ -1111,7 +1111,7 @@ impl<P: Xof<SEED_SIZE>, const SEED_SIZE: usize> Aggregator<SEED_SIZE, 16>
             );
             // Fast-forward the correlated randomness XOF to the level of the tree that we are
             // aggregating.
-            for _ in 0..3 * agg_param.level {
+            for _ in 0..3 * usize::from(agg_param.level) {
                 corr_prng.get();
             }
 
